@@ -337,7 +337,9 @@ Proof. destruct v; cbn; intros H; try reflexivity; discriminate. Qed.
 Definition plain_rval (v : rval) : bool :=
   match v with
   | RLit _ => true
+  | RNeg l => match neg_value (lit_value l) with Ok r => simple_value r | Err _ => false end
   | RMacro m => simple_value (macro mt m)
+  | RNegMacro m => match neg_value (macro mt m) with Ok r => simple_value r | Err _ => false end
   | RVar _ => true
   | RReg r => visible r
   | RExpr e => supported mt e && regs_visible e
@@ -422,6 +424,15 @@ Proof. destruct v; reflexivity. Qed.
 
 Lemma c_rval_lit l d : c_rval rt mt (RLit l) d = move_const (lit_param l) d. Proof. reflexivity. Qed.
 Lemma c_rval_macro m d : c_rval rt mt (RMacro m) d = move_const (macro_param mt m) d. Proof. reflexivity. Qed.
+Lemma c_rval_neg l d : c_rval rt mt (RNeg l) d = move_const (neg_param (lit_value l)) d. Proof. reflexivity. Qed.
+Lemma c_rval_negmacro m d : c_rval rt mt (RNegMacro m) d = move_const (neg_param (macro mt m)) d. Proof. reflexivity. Qed.
+(* a negated constant: the compiler computes the value, the code is that of a constant *)
+Lemma neg_plain v : match neg_value v with Ok r => simple_value r | Err _ => false end = true ->
+  exists r, neg_value v = Ok r /\ neg_param v = value_param r /\ param_value (value_param r) = Some r.
+Proof.
+  unfold neg_param, neg_value. destruct (eval_binop OP_MUL v (VInt (-1))) as [r|e]; [|discriminate]. intros H. exists r.
+  split; [reflexivity|]. split; [reflexivity|]. apply param_value_of_value. exact H.
+Qed.
 Lemma c_rval_var y d : c_rval rt mt (RVar y) d = move_ref (PStr y) d. Proof. reflexivity. Qed.
 Lemma c_rval_reg r d : c_rval rt mt (RReg r) d = move_ref (PReg r) d. Proof. reflexivity. Qed.
 Lemma c_rval_expr e d : c_rval rt mt (RExpr e) d = c_expr rt mt e ++ [I1 OC_POP (dest_param d)]. Proof. reflexivity. Qed.
@@ -442,9 +453,19 @@ Proof.
     injection He as Hx Hs; subst x ss1. split; [reflexivity|]. rewrite c_rval_lit in *. rewrite Hnp in *. cbn [code_at] in Hc. destruct Hc as [Hf _].
     exists 1%nat. apply (estep1 im s _ _ _ Hf). rewrite (exec_moveq im s _ d (lit_value l) Hd0) by (destruct l; reflexivity).
     rewrite zlength1. apply lift_put; assumption.
+  - (* negated literal *)
+    destruct (neg_plain _ Hp) as (r0 & Hn & Hnpar & Hpv). rewrite Hn in He. cbn [lift_res] in He.
+    injection He as Hx Hs; subst x ss1. split; [reflexivity|]. rewrite c_rval_neg in *. rewrite Hnp, Hnpar in *. cbn [code_at] in Hc. destruct Hc as [Hf _].
+    exists 1%nat. apply (estep1 im s _ _ _ Hf). rewrite (exec_moveq im s _ d r0 Hd0 Hpv).
+    rewrite zlength1. apply lift_put; assumption.
   - (* macro *)
     injection He as Hx Hs; subst x ss1. split; [reflexivity|]. rewrite c_rval_macro in *. rewrite Hnp in *. cbn [code_at] in Hc. destruct Hc as [Hf _].
     exists 1%nat. apply (estep1 im s _ _ _ Hf). unfold macro_param. rewrite (exec_moveq im s _ d (macro mt m) Hd0) by (apply param_value_of_value; exact Hp).
+    rewrite zlength1. apply lift_put; assumption.
+  - (* negated constant *)
+    destruct (neg_plain _ Hp) as (r0 & Hn & Hnpar & Hpv). rewrite Hn in He. cbn [lift_res] in He.
+    injection He as Hx Hs; subst x ss1. split; [reflexivity|]. rewrite c_rval_negmacro in *. rewrite Hnp, Hnpar in *. cbn [code_at] in Hc. destruct Hc as [Hf _].
+    exists 1%nat. apply (estep1 im s _ _ _ Hf). rewrite (exec_moveq im s _ d r0 Hd0 Hpv).
     rewrite zlength1. apply lift_put; assumption.
   - (* variable *)
     injection He as Hx Hs; subst x ss1. split; [reflexivity|]. rewrite c_rval_var in *.
@@ -1412,7 +1433,9 @@ Proof.
   { intros p. unfold move_ref. destruct d; try discriminate; match goal with |- context [if ?c then _ else _] => destruct c end; reflexivity. }
   destruct v; cbn [plain_rval] in Hp; try discriminate.
   - rewrite c_rval_lit. apply Hmc.
+  - rewrite c_rval_neg. apply Hmc.
   - rewrite c_rval_macro. apply Hmc.
+  - rewrite c_rval_negmacro. apply Hmc.
   - rewrite c_rval_var. apply Hmr.
   - rewrite c_rval_reg. apply Hmr.
   - apply andb_true_iff in Hp. destruct Hp as [Hs _]. rewrite c_rval_expr, forallb_app, (c_expr_no_routine e Hs). reflexivity.
